@@ -60,7 +60,12 @@ def run(pid, tier, seed):
     lem = [{"id": "sticky", "statement": "once a path component failed, status and node stay; the first matching child stays the first",
             "status": "proved by induction in SMT (base + step obligations, part of this run)"},
            {"id": "L10", "statement": "round trips of get on sibling-unique names (absolute path, Walker-spelled relative path)",
-            "status": "not proved: covered by the bounded stand-in only"}]
+            "status": "on the abstraction (finite forest, sibling-unique names none of which is '', '.', '..'; get = fold of the one-step "
+            "function over the components, which is what Resolver.get is proved to compute - spec function GN of contracts/resolver.py): "
+            "names of a downward chain resolve to its end, k times '..' to the k-th ancestor, the Walker spelling (ups then downs) and the "
+            "absolute path to the target - " + driver.lean_status("L10_resolver_roundtrip.lean") + ". That str.split/join with a "
+            "separator not occurring in any name are inverse, and Walker.walk's contract (C15) yields exactly such an up/down pair, "
+            "links the lemma to the code by review; the bounded stand-in runs the round trips on the real code"}]
     res = common.standard(pid, tier, seed, collect(pid), TRUSTED, "resolver.py", {"property": pid, "nodes": 3, "comps": 2}, None, "",
                           lemmas=lem, select=False, extra_quick=bounded_part(pid, tier))
     # the thorough-tier generic bounded run of common.standard is replaced by bounded_part above
